@@ -58,6 +58,10 @@ THEOREMS = [
     "OllamaVerif.Causal.defragCore_freeCount",
     "OllamaVerif.Causal.findStart_compact_none",
     "OllamaVerif.C06.full_only_without_room",
+    "OllamaVerif.C06.reserve_state",
+    "OllamaVerif.C06.reserve_inv",
+    "OllamaVerif.C06.reserve_covers",
+    "OllamaVerif.C06.reserve_mask_exact",
     "OllamaVerif.C06.startForward_put_abs_perm",
     "OllamaVerif.C06.forward_abs_perm",
     "OllamaVerif.C06.slideSeq_abs",
@@ -111,6 +115,34 @@ def probe_variant(ctx):
         return VARIANT, "constant"
 
 
+# Branches of the model the theorems talk about; each must have been taken by the REAL code in this run
+# (counters printed by the driver into stats.txt), otherwise exact L1 agreement says nothing about it and the
+# check fails closed (`correspondence-coverage`).
+REQUIRED_COUNTERS = [
+    # generators / configurations
+    "gen_valid", "gen_defrag", "gen_wild", "corpus_histories", "exhaustive_histories", "wrapper_histories", "encoder_histories",
+    "cfg_windowed", "cfg_cache_padding", "cfg_batch_padding", "cfg_permuted_v", "cfg_no_shiftfn", "cfg_sparse_layer_numbers",
+    # StartForward: direct fit, defrag-and-retry accepted / rejected, full error, window eviction
+    "fwd_ok_without_moves", "fwd_ok_after_defrag_moves", "fwd_rejected_after_defrag_moves", "fwd_rejected_without_moves",
+    "fwd_err_full", "fwd_with_window_eviction", "histories_with_defrag", "defrag_row_moves", "defrag_multirow_moves",
+    # Remove / CopyPrefix / CanResume / SetCausal / reserve
+    "remove_ok_to_end", "remove_ok_with_shift", "remove_err:shared", "remove_err:notsup",
+    "copyprefix_ops", "copyprefix_left_shared_cells", "canresume_true", "canresume_false", "setcausal_judged",
+    "reserve_passes_observed", "reserve_passes_before_first_put",
+    # WrapperCache: rejected by the first cache (nothing to unwind) and by the second (unwind)
+    "wrapper_fwd_rejected_by_cache_0", "wrapper_fwd_rejected_by_cache_1", "wrapper_unwinds",
+]
+
+
+def coverage_required(ctx):
+    missing = [c for c in REQUIRED_COUNTERS if not ctx.stats.get(c)]
+    ctx.coverage["model_branches_required"] = len(REQUIRED_COUNTERS)
+    ctx.coverage["model_branches_missing"] = missing
+    if missing:
+        ctx.violation("correspondence-coverage", "", "branches of the model never exercised on the real code in this run: "
+                      + ", ".join(missing), no_input=True)
+
+
 def run(ctx):
     ctx.lean_check(MODULES, THEOREMS)
     variant, how = probe_variant(ctx)
@@ -132,6 +164,8 @@ def run(ctx):
     if rc != 0:
         ctx.violation("driver-failed", "", out[-1500:], no_input=True)
     ctx.read_stats(outdir)
+    if not ctx.replay:
+        coverage_required(ctx)
     ctx.l1(outdir)
     ctx.classify(ctx.l2(outdir), matcher)
     if ctx.thorough:
